@@ -9,14 +9,14 @@
 package main
 
 import (
-	"path"
-	"regexp"
 	"bytes"
 	"encoding/json"
 	"fmt"
 	"os"
 	"os/exec"
+	"path"
 	"path/filepath"
+	"regexp"
 	"runtime"
 	"sort"
 	"strconv"
@@ -64,16 +64,20 @@ type Result struct {
 
 // PropSpec is the per-property batch configuration.
 type PropSpec struct {
-	Level      string
-	QuickRuns  int
-	ThorRuns   int
-	Wall       time.Duration // per child
-	Race       bool
-	Rule       string
-	Assume     []string
-	Modes      []string // optional sub-modes cycled over runs
-	MaxProcs   int
-	QuickModes []string
+	Level     string
+	QuickRuns int
+	ThorRuns  int
+	Wall      time.Duration // per child
+	Race      bool
+	// ClientOrder (non-empty): the client itself iterates a Go map / sync.Map
+	// where the order is observable in the trace; equal seeds then give equal
+	// verdicts but not equal trace hashes
+	ClientOrder string
+	Rule        string
+	Assume      []string
+	Modes       []string // optional sub-modes cycled over runs
+	MaxProcs    int
+	QuickModes  []string
 }
 
 var specs = map[string]*PropSpec{}
@@ -921,6 +925,22 @@ func selftest(props []string) int {
 			}
 		}
 		fmt.Printf("selftest %s: %d seeds x 4 executions (GOMAXPROCS 1,1,4,16): %d divergent\n", prop, nseeds, div)
+		if spec.ClientOrder != "" {
+			// the verdict-level comparison still holds: same number of violations
+			vdiv := 0
+			for _, hs := range hashes {
+				vs := map[string]bool{}
+				for h := range hs {
+					vs[h[strings.LastIndex(h, "/")+1:]] = true
+				}
+				if len(vs) != 1 {
+					vdiv++
+				}
+			}
+			fmt.Printf("selftest %s: trace divergence tolerated (%s); verdicts divergent: %d\n", prop, spec.ClientOrder, vdiv)
+			bad += vdiv
+			continue
+		}
 		bad += div
 	}
 	if bad > 0 {
